@@ -5,6 +5,7 @@ muts=[
  ('M2-lldp-tlvlen','layers/lldp.go','			if len(vData) < int(val.Length+2) {','			if false && len(vData) < int(val.Length+2) {'),
  ('M3-ospf-lsalen','layers/ospf.go','	if len(data) < int(lsalength) {','	if false && len(data) < int(lsalength) {'),
  ('M4-packet-noerrlayer','packet.go','	p.AddLayer(fail)\n	p.SetErrorLayer(fail)\n','	p.AddLayer(fail)\n'),
+ ('M6-mpls-spin','layers/mpls.go','	p.AddLayer(mpls)\n	if mpls.StackBottom {','	p.AddLayer(mpls)\n	for mpls.Label == 0xfffff {\n	}\n	if mpls.StackBottom {'),
  ('M5-vxlan-skipbyte','layers/vxlan.go','	bytes[0] = 0\n	bytes[1] = 0\n','	bytes[0] = 0\n'),
 ]
 sel=sys.argv[1:] 
